@@ -1,9 +1,11 @@
 from props._kt import *
+from props.C09 import TT_UNIT
 
 PROPERTY = 'C06'
 LEVEL = 'proof'
 UNITS = [
     CANARY,
+    TT_UNIT,
     Kani(MT + 'c06_add_single_trace', fns=[Fn(T, 'add_single', TI)], covers=2,
          contract='add_single: rule Err => trace Begin.Checkpoint(c).CallRule(cmd,OnGraphAtOrigin).Revert(c).Rollback, no AddCommand, no sink Commit, no storage mutation, '
                   'phead unchanged, the policy error returned; rule Ok => ...AddCommand(cmd).Commit and phead = cmd.id', **RT),
@@ -13,14 +15,16 @@ UNITS = [
          kind='bounded', bound='batch of one command on an in-flight perspective', covers=1, cap_s=900, stubs=['evaluate_braid'],
          contract='add_commands: a rejected command returns the error at once with exactly one CallRule, Revert and Rollback, no AddCommand/Commit/CommitHeads, phead unchanged', **RT),
 ]
+HARNESS_FILES = ['verus/c09_transaction_tips.py'] + HARNESS_FILES
 TRUSTED = KT_TRUSTED
 ASSUMPTIONS = ['"contributes no facts" rests on LinearPerspective::revert restoring the fact overlay (C13): that body is NOT under contract here',
                '"later commands naming a rejected parent are refused" = get_perspective returns NoSuchParent when locate finds nothing (C09 unit c09_get_perspective_with_tip, thorough tier)']
 EXPLANATION = 'Trace contracts on the real Transaction::{add_single, locate, add_commands} over havoc storage/policy/sink: every error return at every call site is explored.'
 MANIFEST = {
     'text': 'Proof at function level: for every storage, policy and sink behaviour, a command whose rule fails is reverted to the checkpoint taken before the rule, '
-            'the sink is rolled back, nothing is added or committed and the transaction head is unchanged; parents are looked up only in committed heads and transaction tips. '
+            'the sink is rolled back, nothing is added or committed and the transaction head is unchanged; parents are looked up only in committed heads and transaction tips; '
+            'after a rejection the transaction\'s tips are what they were and it stays committable, so commands accepted earlier still commit (Verus, any size). '
             'Tests run one concrete storage and policy; the contract covers every callee outcome.',
     'note': 'Havoc trait implementations are the assumed contracts of Storage/Policy/Sink; the storage-side half (revert restores facts) is C13 and is not covered. Tips map <= 1 entry.',
-    'technique': 'Kani trace contracts over havoc trait implementations (ghost event log) + CBMC',
+    'technique': 'Kani trace contracts over havoc trait implementations (ghost event log, CBMC) + Verus on the extracted add_single / get_perspective / flush',
 }
